@@ -84,6 +84,7 @@ structure TaskRow where
 structure Cmd where
   target : String
   src : Option (Tid × String)
+  existing : Option Tid := none     -- RunExistingTask (resume of an IDLE task): Model/EngineX.lean
   deriving Repr
 
 /-- something handed to another thread / process / point in time -/
